@@ -14,7 +14,8 @@ attributes in every container / through `make_release`, with a DKW bound and an 
 
 Third family (`_exp_reuse`, budget of the second family): one input object -- a location, a configuration, the arrays of
 the sampling functions, in every container form including single ndarrays -- used several times (groups of one release,
-repeated calls, YAML alias); every use is judged on its own against a pristine copy of the release area."""
+repeated calls, YAML alias), unchanged or changed by the caller between the calls (array moved in place, file name
+rewritten); every use is judged on its own against a pristine copy of the release area as it was at that use."""
 import importlib, math, io, json
 from fractions import Fraction as Fr
 import numpy as np
@@ -38,7 +39,10 @@ RULE = ("1..4 disjoint simple polygons (star / comb / triangles, both orientatio
         "arrays, one array per coordinate, or ONE (2,n) / (2,k,n) ndarray (C order, Fortran order, transposed view, float32, integer, "
         "read-only); used by 2..4 groups of one make_release (dict or list configuration, optionally with another group in between, or the "
         "same group dict listed several times), by a YAML configuration with an alias, by repeated make_release calls with one "
-        "configuration (with / without a config seed), by repeated get_location calls, by repeated direct calls; a two-element range "
+        "configuration (with / without a config seed), by repeated get_location calls, by repeated direct calls; between two calls the "
+        "object is left alone, or the caller moves the float64 array of corners in place, or the next area (1..3 new polygons) is written to "
+        "the same GeoJSON file name (two of three GeoJSON areas of a run also share one file name); kinds in shuffled blocks of 12 and offset "
+        "containers from a shuffled deck, so every run holds every kind and container; a two-element range "
         "(list / tuple / ndarray / uniform dict) shared the same way; per use: count, every position inside the release area, polygon "
         "shares, a half-plane cut on every polygon + 2, range on 10 bins. "
         "Non-trivial: every statistical experiment.")
